@@ -54,7 +54,7 @@ def getCfg (j : Json) : Except String Cfg := do
   | .error _ => pure Cfg.current
   | .ok c =>
     let opt := fun (k : String) => match getBool c k with | .ok b => b | .error _ => true
-    pure ⟨opt "skipSelf", opt "checkDirs", opt "dotRoot", opt "checkGlobs"⟩
+    pure ⟨opt "skipSelf", opt "checkDirs", opt "dotRoot", opt "checkGlobs", opt "resolve"⟩
 
 def reject (phase : String) (ks : List Kind) : Json :=
   Json.mkObj [("verdict", Json.str "reject"), ("phase", Json.str phase),
@@ -70,7 +70,7 @@ def analyzeH : Handler := fun j => do
   match buildNodeMap ps with
   | none => pure (reject "nodemap" [.duplicate])
   | some ns =>
-    match buildGraph cfg ns with
+    match buildGraph cfg ws ns with
     | some k => pure (reject "graph" [k])
     | none =>
       match constraintErrors cfg ws ns with
@@ -103,10 +103,11 @@ def pathFnH : Handler := fun j => do
   let fn ← getStr j "fn"
   let cfg ← getCfg j
   match fn with
-  | "within" => pure (Json.mkObj [("r", Json.bool (Paths.pathWithin cfg.dotRoot (← getBytes j "p") (← getBytes j "d")))])
-  | "overlap" => pure (Json.mkObj [("r", Json.bool (Paths.pathsOverlap cfg.dotRoot (← getBytes j "p") (← getBytes j "d")))])
+  | "within" => pure (Json.mkObj [("r", Json.bool (Paths.pathWithin cfg.dotRoot cfg.resolve (← getBytes j "p") (← getBytes j "d")))])
+  | "overlap" => pure (Json.mkObj [("r", Json.bool (Paths.pathsOverlap cfg.dotRoot cfg.resolve (← getBytes j "p") (← getBytes j "d")))])
   | "escape" => pure (Json.mkObj [("r", Json.bool (Paths.triesToEscape (← getBytes j "p")))])
   | "withinws" => pure (Json.mkObj [("r", Json.bool (Paths.isWithinWorkspace (← getBytes j "ws") (← getBytes j "pkg") (← getBytes j "rel")))])
+  | "resolveout" => pure (Json.mkObj [("r", jBytes (Paths.resolvedOutputPath (← getBytes j "ws") (← getBytes j "pkg") (← getBytes j "out")))])
   | "cleanout" => pure (Json.mkObj [("r", jBytes (Paths.cleanOutputPath (← getBytes j "pkg") (← getBytes j "out")))])
   | _ => throw ("unknown fn " ++ fn)
 
